@@ -79,6 +79,14 @@ static void judge_delivery(Ctx &ctx, World &w, size_t p, size_t who, const Z &m,
   }
 }
 
+// the sender a party in sender-specific mode is waiting for: the library's protocols ask the senders one after the other
+// (for j ... DeliverFrom(x, j)) and keep asking the same one until its value arrives, so the stated totality clause is
+// "a party that keeps calling DeliverFrom(s) while messages are handed over fairly eventually gets what s broadcast"
+static size_t awaited(const World &w, size_t p) {
+  size_t k = w.phase[p]; const std::string &c = w.prog[k].chan;
+  for (size_t h = 0; h < w.n; h++) { if (!w.honest[h]) continue; size_t need = planned(w, c, h, k), have = 0; auto it = w.got[p].find(c); if (it != w.got[p].end()) { auto jt = it->second.find(h); if (jt != it->second.end()) have = jt->second; } if (have < need) return h; }
+  return w.n;
+}
 // one delivery call at party p, link l; FROM mode uses the named target sender
 static bool step(Ctx &ctx, World &w, size_t p, size_t l, size_t target) {
   if (!w.honest[p]) return false; // a party that finished its program keeps serving the protocol on its last channel
@@ -198,6 +206,7 @@ static void run_case(Ctx &ctx, World &w, size_t nops, bool pct) {
       // pick a non-empty incoming link of p (construction, not rejection)
       std::vector<size_t> ne; for (size_t l = 0; l < n; l++) if (w.net->q[l][p].size() >= 5) { bool st = false; if (op < starve_until) for (auto &s : starved) if (s.first == l && s.second == p) st = true; if (!st) ne.push_back(l); }
       size_t l = ne.empty() ? ctx.c.index(n) : ne[ctx.c.index(ne.size())]; size_t target = ctx.c.index(n);
+      if (w.prog[w.phase[p]].from_mode && ctx.c.prob(2, 3)) { size_t a = awaited(w, p); if (a < n) target = a; } // mostly the sender the party is waiting for, sometimes any
       step(ctx, w, p, l, target);
     } else if (kind == 2) { inject(ctx, w, byz[ctx.c.index(byz.size())], p); }
     else { if (!w.finished[p] && w.phase[p] + 1 < w.prog.size() && !w.gaveup[p]) { w.gaveup[p] = true; if (w.trace_ops++ < 60) w.trace << " giveup" << p; } }
@@ -210,9 +219,10 @@ static void run_case(Ctx &ctx, World &w, size_t nops, bool pct) {
     bool progress = false;
     for (size_t p : hon) {
       while (act(ctx, w, p)) progress = true;
-      bool from = w.prog[w.phase[p]].from_mode;
-      for (size_t l = 0; l < n && !ctx.failed; l++) if (w.net->q[l][p].size() >= 5) { if (step(ctx, w, p, l, from ? (round + l) % n : 0)) progress = true; }
-      for (size_t target = 0; target < (from ? n : 1) && !ctx.failed; target++) if (step(ctx, w, p, n, target)) progress = true;
+      // sender-specific mode: the party keeps asking the sender it is waiting for (when it waits for nobody, e.g. after its program, it asks the senders in turn)
+      for (size_t l = 0; l < n && !ctx.failed; l++) if (w.net->q[l][p].size() >= 5) { bool from = w.prog[w.phase[p]].from_mode; size_t a = from ? awaited(w, p) : 0; if (step(ctx, w, p, l, from ? (a < n ? a : (round + l) % n) : 0)) progress = true; while (act(ctx, w, p)) progress = true; }
+      { bool from = w.prog[w.phase[p]].from_mode; size_t a = from ? awaited(w, p) : 0;
+        if (!from || a < n) { if (step(ctx, w, p, n, a)) progress = true; } else for (size_t target = 0; target < n && !ctx.failed; target++) if (step(ctx, w, p, n, target)) progress = true; }
     }
     if (!progress) { if (++idle >= n + 1) break; } else idle = 0; // sender-specific targets rotate with the round number
   }
